@@ -6,7 +6,7 @@ use std::time::Duration;
 
 use super::super::{co_io_result, IoData};
 #[cfg(feature = "io_cancel")]
-use crate::coroutine_impl::co_cancel_data;
+use crate::coroutine_impl::{co_cancel_data, co_get_handle};
 use crate::coroutine_impl::{is_coroutine, CoroutineImpl, EventSource};
 use crate::io::AsIoData;
 use crate::net::UdpSocket;
@@ -67,9 +67,14 @@ impl<'a> UdpRecvFrom<'a> {
 
 impl EventSource for UdpRecvFrom<'_> {
     fn subscribe(&mut self, co: CoroutineImpl) {
+        // the coroutine may even come to its end, its handle keeps the cancel data valid
+        #[cfg(feature = "io_cancel")]
+        let _handle = co_get_handle(&co);
         #[cfg(feature = "io_cancel")]
         let cancel = co_cancel_data(&co);
-        let io_data = self.io_data;
+        // once the coroutine is stored another thread may resume it and it may drop the
+        // socket we were called through: use the shared event data by value from here
+        let io_data = (*self.io_data).clone();
 
         #[cfg(feature = "io_timeout")]
         if let Some(dur) = self.timeout {
@@ -77,6 +82,10 @@ impl EventSource for UdpRecvFrom<'_> {
                 .get_selector()
                 .add_io_timer(self.io_data, dur);
         }
+        // register the cancel io data before the coroutine is published, a late
+        // registration would overwrite the one of its next blocking call
+        #[cfg(feature = "io_cancel")]
+        cancel.set_io(io_data.clone());
         #[cfg(may_verif)]
         may_queue::verif::point(may_queue::verif::site::IO_UDP_RECV_SUB_ARMED, 0);
         io_data.co.store(co);
@@ -91,11 +100,12 @@ impl EventSource for UdpRecvFrom<'_> {
 
         #[cfg(feature = "io_cancel")]
         {
-            // register the cancel io data
-            cancel.set_io((*io_data).clone());
-            // re-check the cancel status
+            // re-check the cancel status: a cancel that came before the coroutine
+            // was stored found nothing to wake up
             if cancel.is_canceled() {
-                unsafe { cancel.cancel() };
+                if let Some(co) = io_data.co.take() {
+                    crate::scheduler::get_scheduler().schedule(co);
+                }
             }
         }
     }
